@@ -99,6 +99,8 @@ def check_instance(rp, sample_rng):
         problems.append(("oracle/dims/reported-shapes",
                          f"reported shapes are inconsistent: n={n}, A{d['A_shape']}, len(b)={len(d['b'])}, "
                          f"R{d['R_shape']}, Qo{d['Qo_shape']}, len(c)={len(d['c'])}", {}))
+    if n > fh.SWEEP_MAX:
+        return None, None, None, problems       # too large for the 2^n sweep (cannot happen for the generated sizes)
     S = fh.sufficient(rp)
     X = fh.all_binary(n)
     outs = []
